@@ -1,41 +1,44 @@
 #!/usr/bin/env python3
-"""Hand-written source-level changes to .pyx files (no Cython here: they cannot be compiled, tested or demonstrated natively; they exercise the
-source-level checks only).  usage: tools/pyx_mutants.py <set> [names...]   -> applies each change to /repo, runs the listed checks, reverts."""
-import subprocess, sys, os, json, re
-SETS = {
- "radial": [
-  ("iface_sign", "TidalPy/RadialSolver/interfaces/interfaces.pyx", None, None, ["C02"]),
- ],
-}
-def apply_run(name, path, old, new, checks, count=1):
-    full = os.path.join("/repo", path)
-    src = open(full).read()
-    if src.count(old) < 1:
-        print(f"[{name}] pattern not found in {path}"); return None
-    open(full, "w").write(src.replace(old, new, count))
-    out = {}
-    try:
-        bak = f"/tmp/evidence_bak_{os.getpid()}"
-        subprocess.run(["rm", "-rf", bak]); subprocess.run(["cp", "-r", "/verif/evidence", bak])
-        for c in checks:
-            r = subprocess.run(["python3-vt", "-m", "tpv.run_check", c, "--tier", "quick"], cwd="/verif", capture_output=True, text=True, env=dict(os.environ, TPV_NO_XCHECK="1"))
-            lines = [l for l in r.stdout.splitlines() if l.startswith("VIOLATION") or l.startswith("[")]
-            viol = [l for l in lines if l.startswith("VIOLATION")]
-            out[c] = dict(exit=r.returncode, violations=len(viol), first=(viol[0][:260] if viol else ""), summary=[l for l in lines if l.startswith("[")][-1:] )
-    finally:
-        subprocess.run(["git", "-C", "/repo", "checkout", "--", path])
-        subprocess.run(["rm", "-rf", "/verif/evidence"]); subprocess.run(["mv", bak, "/verif/evidence"])
-    print(f"[{name}] " + "; ".join(f"{c}: exit={v['exit']} violations={v['violations']}" for c, v in out.items()), flush=True)
-    for c, v in out.items():
-        if v["first"]:
-            print("     ", v["first"])
-    return out
-if __name__ == "__main__":
+"""Hand-written source-level changes to .pyx (and .py) files, evaluated on a scratch copy of /repo (TPV_REPO), never on /repo itself.
+No Cython here: .pyx changes cannot be compiled, tested or demonstrated natively; they exercise the source-level checks only.
+usage: tools/pyx_mutants.py <spec.json> [names...]      spec: list of {name, file, old, new, checks, breaks}"""
+import subprocess, sys, os, json, shutil
+def main():
     spec = json.load(open(sys.argv[1]))
     want = set(sys.argv[2:])
+    scratch = f"/tmp/repo_mut_pyx_{os.getpid()}"
+    evd = f"/tmp/tpv_scratch_evidence_pyx_{os.getpid()}"
+    subprocess.run(["rsync", "-a", "--exclude", ".git", "/repo/", scratch + "/"], check=True)
     res = {}
-    for m in spec:
-        if want and m["name"] not in want:
-            continue
-        res[m["name"]] = apply_run(m["name"], m["file"], m["old"], m["new"], m["checks"], m.get("count", 1))
-    json.dump(res, open("/tmp/pyx_mutants_result.json", "w"), indent=1)
+    try:
+        for m in spec:
+            if want and m["name"] not in want:
+                continue
+            if m.get("old") is None:
+                continue
+            full = os.path.join(scratch, m["file"])
+            src = open(os.path.join("/repo", m["file"])).read()
+            if src.count(m["old"]) < 1:
+                print(f"[{m['name']}] pattern not found in {m['file']}", flush=True)
+                continue
+            open(full, "w").write(src.replace(m["old"], m["new"], m.get("count", 1)))
+            out = {}
+            for c in m["checks"]:
+                r = subprocess.run(["python3-vt", "-m", "tpv.run_check", c, "--tier", "quick"], cwd="/verif", capture_output=True, text=True,
+                                   env=dict(os.environ, TPV_NO_XCHECK="1", TPV_REPO=scratch, TPV_EVIDENCE_DIR=evd))
+                lines = [l for l in r.stdout.splitlines() if l.startswith("VIOLATION") or l.startswith("[") or l.startswith("  SUBSET") or l.startswith("  UNDECIDED")]
+                viol = [l for l in lines if l.startswith("VIOLATION")]
+                out[c] = dict(exit=r.returncode, violations=len(viol), first=(viol[0][:260] if viol else ""), other=[l[:200] for l in lines if l.startswith("  ")][:2])
+            open(full, "w").write(src)
+            res[m["name"]] = out
+            print(f"[{m['name']}] " + "; ".join(f"{c}: exit={v['exit']} violations={v['violations']}" for c, v in out.items()), flush=True)
+            for c, v in out.items():
+                if v["first"]:
+                    print("     ", v["first"].replace(evd, "<scratch>"), flush=True)
+                for o in v["other"]:
+                    print("     ", o, flush=True)
+    finally:
+        shutil.rmtree(scratch, ignore_errors=True)
+        shutil.rmtree(evd, ignore_errors=True)
+    json.dump(res, open(f"/tmp/pyx_mutants_result_{os.path.basename(sys.argv[1])}", "w"), indent=1)
+main()
